@@ -22,7 +22,7 @@ RULE = (
 ASSUMPTIONS = [
     "the re-parse law is restricted as the property states: brace-balanced (dialect escape convention R3) content not ending in a backslash, "
     "without a block-start pattern, and for the quote default without a bare quote outside braces",
-    "integer values are Python ints and ASCII digit strings",
+    "integer values are Python ints and ASCII digit strings; ints that Python itself refuses to turn into text (more than 4300 digits) cannot be enclosed or written at all and are outside the space",
 ]
 STATIC_SAMPLES = ['"', '{a} # {b}', 1990]
 
